@@ -45,6 +45,13 @@ BrokenInvariant ==
     [] ~ReaderOwnGen -> "ReaderOwnGen"
     [] OTHER -> ""
 
+\* the open attempts of reader p that failed since its current call began (the events of p between
+\* the call's first directory listing and now are listings, opens and failed opens only)
+GiveUpAfter == 3
+OpenFailsBefore(p) ==
+  Cardinality({j \in 1 .. l - 1 : /\ T[j].proc = p /\ T[j].ev = "openfail"
+                                  /\ \A k \in j + 1 .. l - 1 : T[k].proc = p => T[k].ev \in {"list", "open", "openfail"}})
+
 Event(e) ==
   LET p == e.proc
       isW == p \in TraceWriters
@@ -52,10 +59,11 @@ Event(e) ==
        [] e.ev = "lock" /\ e.res -> Try(isW /\ G_Lock(p), WLock(p), "lock-acquired-while-held")
        [] e.ev = "lock" /\ ~e.res -> Try(isW /\ G_LockFail(p), WLockFail(p), "lock-refused-while-free")
        [] e.ev = "lockblock" -> Reject("lock-attempt-blocks-on-a-held-lock-instead-of-failing-after-the-timeout")
-       \* opening a reader may fail when a file vanished under it (the reader retries a few
-       \* times on disk, not at all on RamStorage); the properties constrain what opened
-       \* readers return, so this is tolerated exactly when a file really was missing
-       [] e.ev = "apierror" /\ e.call \in {"searcher", "refresh"} /\ ~isW /\ r[p].failed -> Skip
+       \* opening a reader may fail when files vanish under it; it reads the directory again
+       \* a few times before it gives up, so the failure of the call is tolerated only after
+       \* several attempts that each lost a genuine race (one lost race must not fail the call)
+       [] e.ev = "apierror" /\ e.call \in {"searcher", "refresh"} /\ ~isW /\ r[p].failed
+            /\ OpenFailsBefore(p) >= GiveUpAfter -> Skip
        [] e.ev = "apierror" -> Reject("api-call-raised-" \o e.call)
        [] e.ev = "unlock" -> Try(isW /\ G_Unlock(p), WUnlock(p), "unlock-not-allowed-here")
        \* the temporary directory of an index is shared by its writers (one name): whoever removes it holds the lock
